@@ -202,11 +202,26 @@ func c14Worker(args []string) int {
 		}
 		r.closer()
 	}
+	// A service that does not answer at all (three requests in a row time out
+	// after 10 s each) is reported once; the remaining reads of that start are
+	// not attempted (175 logs x 10 s would only repeat the finding).
+	silent, silentAddr := 0, ""
 	get := func(addr, id string) (int, []byte) {
-		resp, err := (&http.Client{Timeout: 10 * time.Second}).Get("http://" + addr + "/witness/v0/logs/" + id + "/checkpoint")
-		if err != nil {
+		if addr != silentAddr {
+			silent, silentAddr = 0, addr
+		}
+		if silent >= 3 {
 			return 0, nil
 		}
+		resp, err := (&http.Client{Timeout: 10 * time.Second}).Get("http://" + addr + "/witness/v0/logs/" + id + "/checkpoint")
+		if err != nil {
+			silent++
+			if silent == 3 {
+				res.Problems = append(res.Problems, c14Problem{Signature: "service-not-answering", What: fmt.Sprintf("%s/%s/%s: the witness's HTTP endpoint did not answer three requests in a row (10 s each): %v", spec.Mode, spec.Storage, spec.Feeder, err)})
+			}
+			return 0, nil
+		}
+		silent = 0
 		defer resp.Body.Close()
 		b, _ := io.ReadAll(resp.Body)
 		return resp.StatusCode, b
